@@ -349,7 +349,7 @@ fn judge(case: &Case, determinism: bool, out: &mut CaseOut, want_sample: bool)
 	// (4c) a final newline changes nothing: a file that ends right after its
 	// last token gets the same diagnostics, at the same places, drawn the same
 	// way, as the same file with a newline at the end
-	if files.len() == 1 && !o.raw.is_empty() && !files[0].1.is_empty() && !files[0].1.ends_with('\n') && o.raw.iter().all(|e| e.code() >= 300)
+	if files.len() == 1 && !o.raw.is_empty() && !files[0].1.is_empty() && !files[0].1.ends_with('\n') && o.raw.iter().all(|e| !(101..300).contains(&e.code()))
 	{
 		let with_newline = vec![(files[0].0.clone(), format!("{}\n", files[0].1))];
 		let o2 = alpha::compile_modules(&with_newline, alpha::Options::default());
